@@ -4,6 +4,7 @@ import MesonModel.Rewrite.StrLit
 import MesonModel.Rewrite.Compare
 import MesonModel.Rewrite.Parse
 import MesonModel.Rewrite.ListEdit
+import MesonModel.Rewrite.PathMatch
 /-
 driver commands of area `rewrite` (C17).
 
@@ -170,6 +171,13 @@ def handle (cmd : String) (fs : List String) : String :=
         | .ok out => encodeStr out
         | .error e => showErr e
       else "ERR:MesonBugException"
+  | "normpath", [p] => encodeStr (normpath (decodeStr p))
+  | "pmatch", root :: req :: cands =>
+    -- candidates: relto1|strings1|relto2|strings2|...; answer: `i:j` pairs find_node accepts
+    let rec mk : List String → List Cand
+      | r :: ss :: rest => ⟨decodeStr r, decodeStrList ss⟩ :: mk rest
+      | _ => []
+    ",".intercalate ((findNodeMatches (decodeStr root) (decodeStr req) (mk cands)).map (fun (i, j) => s!"{i}:{j}"))
   | "order", nm :: nr :: metas =>
     -- the order in which the work items (numbered as queued: modified, removed, added) are applied
     let ws := (metas.zipIdx).filterMap (fun (m, i) => decodeWork m s!"n:0:{i}")
